@@ -360,6 +360,20 @@ func c13StoredPubkeys(e *c13EpochFx) []solana.PublicKey {
 	return out
 }
 
+// c13HotIdx: positions of the most mentioned addresses within pks.
+func c13HotIdx(e *c13EpochFx, pks []solana.PublicKey) []int {
+	var out []int
+	for _, h := range e.HotPks {
+		for i, p := range pks {
+			if p == h {
+				out = append(out, i)
+				break
+			}
+		}
+	}
+	return out
+}
+
 func c13CompactTargets(f *c13Fixtures) []*c13Target {
 	var out []*c13Target
 	add := func(t *c13Target, err error) {
@@ -840,6 +854,7 @@ func c13GsfaTargets(f *c13Fixtures) []*c13Target {
 				lim.exhaustBelow = 1 << 16
 			default:
 				t.Keys = pkNames
+				t.MustKeys = c13HotIdx(e, pks)
 				t.Open = func() (c13Handle, error) {
 					r, err := gsfa.NewGsfaReader(work)
 					if err != nil {
@@ -1038,6 +1053,7 @@ func c13EpochTarget(f *c13Fixtures, e *c13EpochFx, r c13EpochRole, lim c13Limits
 		for i, p := range pks {
 			t.Keys[i] = p.String()
 		}
+		t.MustKeys = c13HotIdx(e, pks)
 		lookup = func(ep *Epoch, k int) c13Ans {
 			if ep.gsfaReader == nil {
 				return c13Ans{c13Empty, "epoch loaded without its address index"}
